@@ -203,6 +203,29 @@ ALLOWED_INTERIOR = {("marker::MarkerString", "regex_capture")}
 NO_UNSAFE_MODULES = ("src/router/", "src/regex_radix_tree/", "src/marker/", "src/regex.rs", "src/api/rules_message.rs", "src/api/rule.rs")
 
 
+def marker_compile_stores_own(F):
+    """MarkerString::compile: the value written through the lock guard is LazyRegex::compile() of
+    the value read through that same guard (not of a regex rebuilt from other fields)."""
+    f = F.fn("marker::MarkerString::compile")
+    n = 0
+    for p in Sym(f, copies=True).paths():
+        for e in p.events:
+            if e[0] == "write" and mentions(e[2], lambda x: x[0] == "call" and x[1] == "regex::LazyRegex::compile"):
+                n += 1
+                comp = [x for x in walk(e[2]) if x[0] == "call" and x[1] == "regex::LazyRegex::compile"][0]
+                recv = comp[2][0]
+                from_guard = mentions(recv, lambda x: x[0] == "call" and x[1].rsplit("::", 1)[1] in ("write", "lock", "try_write") and mentions_field(x[2][0], "regex_capture", "marker::MarkerString"))
+                rebuilt = mentions(recv, lambda x: x[0] == "call" and x[1] in ("regex::LazyRegex::new_leaf", "regex::LazyRegex::new_node"))
+                if not from_guard or rebuilt:
+                    return False, "regex_capture := compile(%s): not the regex that was stored there (captures of the compiled form may differ from the lazy form)" % show(recv, f)
+                dest_guard = mentions(e[1], lambda x: x[0] == "call" and x[1].rsplit("::", 1)[1] in ("write", "lock", "try_write"))
+                if not dest_guard:
+                    return False, "compile() result stored into %s" % show(e[1], f)
+    if n == 0:
+        return False, "MarkerString::compile does not store a compiled regex"
+    return True, "MarkerString::compile stores LazyRegex::compile() of the value it read through the same lock guard"
+
+
 def r02_6(ctx, layers):
     F = ctx.facts
 
@@ -222,12 +245,8 @@ def r02_6(ctx, layers):
             r.ob("isolation:lock-writer:%s" % f.key, ok, f.loc(span_line(t["s"])), "write access to an interior-mutable cell in %s" % f.key)
         f = F.fn("marker::MarkerString::compile")
         r.analysed(f)
-        stored = None
-        for p in Sym(f, copies=True).paths():
-            for e in p.events:
-                if e[0] == "write" and e[2][0] == "call" and e[2][1] == "regex::LazyRegex::compile":
-                    stored = e
-        r.ob("isolation:compile-stores-own-compile", stored is not None, f.site, "MarkerString::compile stores LazyRegex::compile() of the value it read")
+        ok_store, why = marker_compile_stores_own(F)
+        r.ob("isolation:compile-stores-own-compile", ok_store, f.site, why)
         # no user unsafe in the modules holding the shared structures
         n_unsafe = 0
         for ub in F.unsafe_blocks:
@@ -281,6 +300,70 @@ def r02_6(ctx, layers):
     ctx.run_rule("R02.6", "clone isolation (type level)", body, floor=19)
 
 
+def multi_placement_buckets(L):
+    """bucket fields of layer L into which `insert` may place one route several times (placement
+    inside a for loop)."""
+    from .c01 import is_child_call, bucket_of
+    ins = L.methods["insert"]
+    multi = set()
+    if ins is None:
+        return multi
+    si = Sym(ins, copies=True)
+    for lp in for_loops(ins):
+        for p in lp.iteration_paths(si):
+            for e in p.events:
+                if is_child_call(e, L, "insert"):
+                    multi.update(bucket_of(e[2][0], L))
+    return multi
+
+
+def r02_8(ctx, layers, rid="R02.8"):
+    F = ctx.facts
+
+    def body(r):
+        n = 0
+        for L in layers:
+            f = L.methods["remove"]
+            if f is None or not L.next:
+                continue
+            multi = multi_placement_buckets(L)
+            r.analysed(f)
+            pv = Prov(f, copies=True)
+            # traversals of bucket maps in remove: retain(closure) calls whose receiver is a bucket
+            for bi, t, cal in f.calls():
+                if cal is None or cal.name not in ("retain", "retain_mut"):
+                    continue
+                recv = pv.operand(t["args"][0])
+                b = [x for x in L.buckets if mentions_field(recv, x, L.adt)]
+                if not b:
+                    continue
+                cl = None
+                for tix in cal.substs:
+                    ty = F.types[tix]
+                    if ty.get("k") == "closure":
+                        cl = F.fns.get(ty["def"])
+                if cl is None:
+                    # closure passed by reference (&|..|): look it up among the closures of remove
+                    continue
+                n += 1
+                skips = 0
+                total = 0
+                for p in Sym(cl, copies=True).paths():
+                    if p.end[0] != "ret":
+                        continue
+                    total += 1
+                    if not any(e[0] == "call" and e[1] in ("%s::remove" % L.next, "std::collections::HashMap::remove") for e in p.events):
+                        skips += 1
+                key = "removal-visits-every-bucket:%s:%s" % (L.short, b[0])
+                if b[0] in multi:
+                    r.ob(key, skips == 0 and total > 0, cl.site,
+                         "a route can live in several `%s` buckets (insert places it in a loop): %s" % (b[0], "every bucket is asked to remove it" if skips == 0 else "the traversal stops asking after the first hit, the other buckets keep the removed route"))
+                else:
+                    r.ob(key, True, cl.site, "a route lives in at most one `%s` bucket: %s" % (b[0], "early exit after the hit is sound" if skips else "every bucket is visited"))
+        r.ob("removal-visits-every-bucket:traversals", n >= 7, "", "%d bucket traversals in the layers' remove" % n)
+    ctx.run_rule(rid, "single-id removal visits every bucket a route can live in", body, floor=8)
+
+
 def run(ctx):
     try:
         layers = LY.discover(ctx.facts)
@@ -294,3 +377,6 @@ def run(ctx):
     r02_4(ctx, layers)
     r02_5(ctx, layers)
     r02_6(ctx, layers)
+    from .c08 import r08_2
+    r08_2(ctx, rid="R02.7")
+    r02_8(ctx, layers)
